@@ -18,6 +18,7 @@ import (
 	"golang.org/x/tools/go/ssa"
 
 	"symgo/interp"
+	"symgo/smt"
 )
 
 // Instance is one generated harness function.
@@ -28,6 +29,7 @@ type Instance struct {
 	Text    string   `json:"text,omitempty"`
 	Expect  []string `json:"-"` // reach labels that must be hit on some path
 	Nondet  bool     `json:"-"` // native behaviour is schedule dependent: skip trace validation
+	MapOrd  bool     `json:"-"` // the harness explores map iteration orders: native replays are repeated
 }
 
 // Family is everything one property check runs.
@@ -104,6 +106,20 @@ func runCheck(prop, tier string, seed int64, gen generator) int {
 		return 2
 	}
 	addSupportFiles(fam)
+	for k := range fam.Instances {
+		head := "\nfunc " + fam.Instances[k].Func + "() {"
+		for _, src := range fam.Files {
+			if a := strings.Index(src, head); a >= 0 {
+				body := src[a+len(head):]
+				if e := strings.Index(body, "\nfunc "); e >= 0 {
+					body = body[:e]
+				}
+				if strings.Contains(body, "ExploreMapOrder") {
+					fam.Instances[k].MapOrd = true
+				}
+			}
+		}
+	}
 	if *flagDump != "" {
 		for p, src := range fam.Files {
 			dst := filepath.Join(*flagDump, strings.TrimPrefix(p, repoDir))
@@ -155,6 +171,11 @@ func runCheck(prop, tier string, seed int64, gen generator) int {
 	cfg.Bridge = bridge
 	if cfg.InitPkgs == nil {
 		cfg.InitPkgs = []string{modPath, "github.com/golang-collections/"}
+	}
+	if tier == "thorough" {
+		smt.Global = smt.NewSampler(600)
+	} else {
+		smt.Global = smt.NewSampler(100)
 	}
 	ex := &interp.Explorer{Prog: prog, Cfg: cfg}
 	workers := *flagWorkers
